@@ -432,13 +432,13 @@ def _run_case(modname, case):
     return col.d
 
 
-def run_check(prop, tier, seed, repo, jobs=None, only=None, verbose=False):
+def run_check(prop, tier, seed, repo, jobs=None, only=None, verbose=False, exact=False):
     modname = "harness.%s" % prop.lower()
     t0 = time.time()
     h = importlib.import_module(modname)
     cases = h.cases(tier, seed)
     if only:
-        cases = [c for c in cases if only in c["name"]]
+        cases = [c for c in cases if (c["name"] == only if exact else only in c["name"])]
     jobs = jobs or min(len(cases), os.cpu_count() or 4, 16)
     results = []
     ctxmp = mp.get_context("fork")
@@ -486,7 +486,7 @@ def finish(prop, tier, seed, h, cases, results, wall):
         for i, v in enumerate(violations):
             p = os.path.join(rdir, "%d.json" % i)
             with open(p, "w") as f:
-                json.dump(dict(property=prop, **v), f, indent=1, default=str)
+                json.dump(dict(property=prop, tier=tier, **v), f, indent=1, default=str)
             lines.append("VIOLATION property=%s replay=%s" % (prop, p))
             print("  -> %s: %s | %s" % (v["case"], v["ob"], str(v.get("detail"))[:300]))
     seen_known = {}
@@ -582,11 +582,27 @@ def main(argv=None):
         h = importlib.import_module("harness.%s" % a.prop.lower())
         with open(a.replay) as f:
             rec = json.load(f)
-        if hasattr(h, "worker_init"):
-            h.worker_init()
-        violated, detail = h.replay_file(rec)
-        print("replay %s: %s -- %s" % (a.replay, "VIOLATED" if violated else "not violated", detail))
-        return 1 if violated else 0
+        if getattr(h, "REPLAY_DIRECT", False):
+            # the harness re-runs the recorded witness on the real code directly
+            if hasattr(h, "worker_init"):
+                h.worker_init()
+            violated, detail = h.replay_file(rec)
+            print("replay %s: %s -- %s" % (a.replay, "VIOLATED" if violated else "not violated", detail))
+            return 1 if violated else 0
+        # otherwise the recorded case is decided again on the current tree (the run itself replays every model on the
+        # real code before it reports); evidence and replay files of this run go to a scratch directory
+        import shutil
+        import tempfile
+        global OUT
+        OUT = tempfile.mkdtemp(prefix="evoverif_replay_", dir=os.environ.get("TMPDIR", "/tmp"))
+        try:
+            rc = run_check(a.prop.upper(), rec.get("tier", a.tier), seed, a.repo, a.jobs, rec.get("case"), a.verbose, exact=True)
+        finally:
+            shutil.rmtree(OUT, ignore_errors=True)
+        print("replay %s: case %r decided again on the current tree -> %s (recorded: %s | %s)" % (
+            a.replay, rec.get("case"), {0: "not violated", 1: "VIOLATED"}.get(rc, "no verdict (exit %d)" % rc), rec.get("ob"),
+            str(rec.get("detail"))[:200]))
+        return rc
     return run_check(a.prop.upper(), a.tier, seed, a.repo, a.jobs, a.only, a.verbose)
 
 
